@@ -23,6 +23,8 @@ import TnVerif.Model.Pad
 import TnVerif.Model.TTMatMul
 import TnVerif.Model.Stats
 import TnVerif.Model.Einsum
+import TnVerif.Model.DerivOps
+import TnVerif.Model.PartialSet
 /-
   Line-protocol driver (DESIGN §2.6).  One request per line on stdin, one answer per line on
   stdout.  Tokens are separated by blanks; numbers are integers or `p/q`.
@@ -604,6 +606,69 @@ def run (cmd : String) : PM String := do
         let a ← pArr ((l.map dims).prod)
         ops := ops.push (TN.Einsum.ofFlat dims l (fun i => a.getD i 0))
       return "ok " ++ showQs (TN.Einsum.evalAll s dims ops.toList)
+  | "partial_list" => do
+      -- partial_list <order> <k> (<d> <c> <per>)^k <tensor>
+      let order ← pNat; let k ← pNat
+      let mut specs : Array (Nat × Q × Bool) := #[]
+      for _ in [0:k] do
+        let d ← pNat; let c ← pQ; let per ← pNat
+        specs := specs.push (d, c, per != 0)
+      let t ← pTensor
+      return "ok " ++ showTensor ((t.partialList order specs.toList).memo)
+  | "gradient" => do
+      -- gradient <k> (<d> <c>)^k <tensor>
+      let k ← pNat
+      let mut specs : Array (Nat × Q) := #[]
+      for _ in [0:k] do
+        let d ← pNat; let c ← pQ
+        specs := specs.push (d, c)
+      let t ← pTensor
+      let gs := t.gradient specs.toList
+      return s!"ok L {gs.length}" ++ String.join (gs.map fun g => " " ++ showTensor g.memo)
+  | "laplacian" => do
+      -- laplacian <n> <c>^n <tensor>
+      let n ← pNat; let cs ← pArr n; let t ← pTensor
+      match t.laplacian cs.toList with
+      | some r => return "ok " ++ showTensor r.memo
+      | none => return "err assert"
+  | "divergence" => do
+      -- divergence <n> <c>^n <N> <tensor>^N
+      let n ← pNat; let cs ← pArr n; let N ← pNat
+      let mut ts : Array (Tensor Q) := #[]
+      for _ in [0:N] do ts := ts.push (← pTensor)
+      match divergence ts.toList cs.toList with
+      | some r => return "ok " ++ showTensor r.memo
+      | none => return "err assert"
+  | "curl" => do
+      -- curl <n> <c>^n <N> <tensor>^N
+      let n ← pNat; let cs ← pArr n; let N ← pNat
+      let mut ts : Array (Tensor Q) := #[]
+      for _ in [0:N] do ts := ts.push (← pTensor)
+      match curl ts.toList cs.toList with
+      | some rs => return s!"ok L {rs.length}" ++ String.join (rs.map fun g => " " ++ showTensor g.memo)
+      | none => return "err assert"
+  | "stencil_steps" => do
+      -- stencil_steps <per> <c> <n> <x>^n : one fibre through the code's own steps
+      let per ← pNat; let c ← pQ; let n ← pNat; let x ← pArr n
+      let f : Nat → Q := fun j => x.getD j 0
+      let out := (List.range n).map (if per != 0 then stencilStepsPer n c f else stencilStepsNP n c f)
+      return "ok " ++ showQs out
+  | "partialset" => do
+      -- partialset <m> <order>^m <n> <c>^n <0|1> [<mask tensor>] <tensor>
+      let order ← pNatList
+      let n ← pNat; let cs ← pArr n
+      let hasMask ← pNat
+      let um ← if hasMask != 0 then do let u ← pTensor; pure (some u) else pure none
+      let t ← pTensor
+      match t.partialset order cs.toList um with
+      | some r => return "ok " ++ showTensor r.memo
+      | none => return "err raise"
+  | "partial_stack" => do
+      -- partial_stack <k> <n> <c>^n <tensor> : the stacked tensor `d` before masking
+      let k ← pNat; let n ← pNat; let cs ← pArr n; let t ← pTensor
+      match t.partialStack cs.toList k with
+      | some r => return "ok " ++ showTensor r.memo
+      | none => return "err raise"
   | _ => throw s!"unknown command {cmd}"
 
 def handle (line : String) : String :=
